@@ -3,6 +3,7 @@ package c01
 
 import (
 	"fmt"
+	"regexp"
 	"sort"
 	"strings"
 	"time"
@@ -71,6 +72,9 @@ func unrepresentableActor(ps []*sbom.Person) bool {
 	p := ps[0]
 	if p.Email == "" && strings.HasSuffix(strings.TrimSpace(p.Name), ")") && strings.Contains(p.Name, "(") {
 		return true
+	}
+	if p.Email == "" && p.Name == "NOASSERTION" {
+		return true // SPDX's own sentinel for "no supplier / originator stated": an actor with exactly this name is not expressible
 	}
 	return strings.ContainsAny(p.Email, " \t\n()")
 }
@@ -293,6 +297,59 @@ func Run(c *engine.Ctx) {
 	attributes(c)
 	zones(c)
 	stringContents(c)
+	identifierCompositions(c)
+}
+
+var spdxIDString = regexp.MustCompile(`^[a-zA-Z0-9.-]+$`)
+
+// identifierCompositions: node identifiers built from the structural tokens of the library's own sources (the prefixes,
+// separators and words it searches identifiers for), restricted to valid SPDX idstrings. Many identifiers share one
+// document: a package root, the identifiers alternately as packages and files, each a target of a typed edge from
+// the root, every third one also a root element and the source of an edge back.
+func identifierCompositions(c *engine.Ctx) {
+	c.Group("identifier-compositions")
+	ids := gen.TokenCompositions(3, func(s string) bool {
+		return spdxIDString.MatchString(s) && s != "DOCUMENT" && s != "NONE" && s != "NOASSERTION" && s != "root-0"
+	})
+	const per = 150
+	c.Bound("identifier-compositions", fmt.Sprintf("%d identifiers = every concatenation of <=3 of the %d structural tokens of the library's sources that is a valid SPDX idstring; %d per document", len(ids), len(gen.StructuralTokens()), per))
+	if gen.LiteralsUnavailable {
+		c.Note("source vocabulary unavailable: identifier compositions not explored")
+		c.Cap("source-vocabulary-unavailable")
+		return
+	}
+	for lo := 0; lo < len(ids); lo += per {
+		hi := lo + per
+		if hi > len(ids) {
+			hi = len(ids)
+		}
+		batch, lo := ids[lo:hi], lo
+		c.Case(func() any { return map[string]any{"identifiers": batch} }, func(t *engine.T) *engine.Violation {
+			nl := &sbom.NodeList{Nodes: []*sbom.Node{{Id: "root-0", Name: "root"}}, RootElements: []string{"root-0"}}
+			e := &sbom.Edge{From: "root-0", Type: tc}
+			e2 := &sbom.Edge{From: "root-0", Type: td}
+			for i, id := range batch {
+				n := &sbom.Node{Id: id, Name: fmt.Sprintf("n%d", i)}
+				if i%2 == 1 {
+					n.Type = sbom.Node_FILE
+				}
+				nl.Nodes = append(nl.Nodes, n)
+				e.To = append(e.To, id)
+				if i%3 == 0 {
+					e2.To = append(e2.To, id)
+					nl.RootElements = append(nl.RootElements, id)
+					nl.Edges = append(nl.Edges, &sbom.Edge{From: id, Type: sbom.Edge_other, To: []string{"root-0", id}})
+				}
+			}
+			nl.Edges = append(nl.Edges, e, e2)
+			if v := RoundTrip(t, docOf(nl), 2); v != nil {
+				return v
+			}
+			t.State(fmt.Sprint("idc:", lo))
+			t.Outcome("identifiers-ok")
+			return nil
+		})
+	}
 }
 
 // stringContents: every text attribute the statement lists x the near-string menu (strings that coincide
@@ -346,7 +403,13 @@ func stringContents(c *engine.Ctx) {
 			ms = append(ms, s) // surrounding blanks are the writer's deliberate trimming (copyright) and covered by the attribute menu
 		}
 	}
-	c.Bound("string-contents", fmt.Sprintf("%d text attributes x %d near-strings", len(slots), len(ms)))
+	nNear := len(ms)
+	for _, s := range gen.Vocabulary() {
+		if strings.TrimSpace(s) == s {
+			ms = append(ms, s)
+		}
+	}
+	c.Bound("string-contents", fmt.Sprintf("%d text attributes x (%d near-strings + %d values from the vocabulary of the library's sources: every word-like string literal as written / lower / upper / title case, structural literals embedded in filler)", len(slots), nNear, len(ms)-nNear))
 	for si := range slots {
 		for mi := range ms {
 			si, mi := si, mi
